@@ -107,3 +107,51 @@ example : ∃ e, (elabExpr 1 (.siglit (some (.name "signal-W")) (.num 1))).run {
   reserved_literal_expr_rejected 0 _ _
 
 end Facto
+
+namespace Facto
+
+/-! ## more rule instances, each for every state the construct can be reached in -/
+
+/-- a bare `any(b)` (no comparison) is refused, whatever `b` is -/
+theorem bare_any_rejected (f : Nat) (b : SExpr) (s : ES) :
+    ∃ e, (elabExpr (f + 1) (.any b)).run s = .error e ∧ e.cls = .bundleCmp := by
+  refine ⟨{ cls := .bundleCmp, msg := "any() must be compared", line := s.line }, ?_, rfl⟩
+  rw [elabExpr]
+  exact fail_run _ _ s
+
+theorem bare_all_rejected (f : Nat) (b : SExpr) (s : ES) :
+    ∃ e, (elabExpr (f + 1) (.all b)).run s = .error e ∧ e.cls = .bundleCmp := by
+  refine ⟨{ cls := .bundleCmp, msg := "all() must be compared", line := s.line }, ?_, rfl⟩
+  rw [elabExpr]
+  exact fail_run _ _ s
+
+/-- calling a function that is not defined is refused -/
+theorem undefined_function_rejected (f : Nat) (name : String) (args : List SExpr) (s : ES) (hname : name ≠ "place")
+    (h : s.funcs.find? (·.name == name) = none) :
+    ∃ e, (elabExpr (f + 1) (.call name args)).run s = .error e ∧ e.cls = .undefined := by
+  refine ⟨{ cls := .undefined, msg := s!"undefined function '{name}'", line := s.line }, ?_, rfl⟩
+  rw [elabExpr]
+  simp only [StateT.run_bind, bind, StateT.bind, get, getThe, MonadStateOf.get, StateT.get, pure, Except.pure,
+    Except.bind, StateT.run, h]
+  · rfl
+  · exact hname
+
+/-- direct or indirect recursion: a call of a function that is already on the call stack is refused -/
+theorem recursion_rejected (f : Nat) (name : String) (args : List SExpr) (s : ES) (fd : FuncDef) (hname : name ≠ "place")
+    (hf : s.funcs.find? (·.name == name) = some fd) (hrec : s.callStack.contains name = true) :
+    ∃ e, (elabExpr (f + 1) (.call name args)).run s = .error e ∧ e.cls = .recursion := by
+  refine ⟨{ cls := .recursion, msg := s!"recursive call of '{name}'", line := s.line }, ?_, rfl⟩
+  rw [elabExpr]
+  simp only [StateT.run_bind, bind, StateT.bind, get, getThe, MonadStateOf.get, StateT.get, pure, Except.pure,
+    Except.bind, StateT.run, hf, hrec, if_true]
+  · rfl
+  · exact hname
+
+/-- an unsupported construct the parser could not classify is refused -/
+theorem unknown_expr_rejected (f : Nat) (w : String) (s : ES) :
+    ∃ e, (elabExpr (f + 1) (.unknown w)).run s = .error e := by
+  refine ⟨{ cls := .unsupported, msg := s!"unsupported construct {w}", line := s.line }, ?_⟩
+  rw [elabExpr]
+  exact fail_run _ _ s
+
+end Facto
